@@ -128,3 +128,106 @@ void h_read_ttl(void)
   __CPROVER_assert(IMPL(!ok && key.is_g && key.n > 0, !kv_has0 || !ex_has0 || ex_exp0 <= now), "TTL-COMPLETE nullopt only if absent, permanent, or expired");
   __CPROVER_assert(!st._kv.touched && !st._expiry.touched && !st._cache.touched && !G_uc_called, "TTL-FRAME ttl() changes nothing");
 }
+
+/* ------------------------------------------------------------------ expiry handling of the log replay in load()
+ * (block target KVStore_load_step = one iteration of the replay loop, as in unit kv_replay; record layout macros repeated from there) */
+/* ---- the log file: an arbitrary byte sequence LOG[0..LOG_N) ; b = a record boundary (read position at the top of an iteration) */
+#define U32AT(o) ((uint32_t)((uint32_t)LOG[(o)] | ((uint32_t)LOG[(o) + 1] << 8) | ((uint32_t)LOG[(o) + 2] << 16) | ((uint32_t)LOG[(o) + 3] << 24)))
+#define U64AT(o) ((uint64_t)U32AT(o) | ((uint64_t)U32AT((o) + 4) << 32))
+#define REC_CAP ((uint32_t)(100 * 1024 * 1024))
+#define AVAIL (LOG_N - b)
+#define HAVE_LEN (AVAIL >= 4)
+#define TL ((size_t)U32AT(b))                              /* declared record length (payload + crc) */
+#define LEN_OK (TL >= 10 && TL <= REC_CAP)
+#define COMPLETE (HAVE_LEN && LEN_OK && AVAIL - 4 >= TL)   /* the whole record is in the file */
+#define P0 (b + 4)                                         /* file offset of the payload */
+#define OPB ((char)LOG[P0])
+#define STORED (U32AT(P0 + TL - 4))                        /* trailer */
+#define OP_S ((char)83)
+#define OP_D ((char)68)
+#define OP_E ((char)69)
+#define OP_X ((char)88)
+#define OP_OK (OPB == OP_S || OPB == OP_D || OPB == OP_E || OPB == OP_X)
+#define KL ((size_t)U32AT(P0 + 1))
+#define KEY_OK (KL >= 1 && KL <= 65536 && 5 + KL <= TL)
+#define FOFF (5 + KL)                                      /* payload offset of the first field after the key */
+/* S: vlen32 | val | crc */
+#define S_VL ((size_t)U32AT(P0 + FOFF))
+#define S_OK (FOFF + 4 <= TL && S_VL <= REC_CAP && FOFF + 4 + S_VL + 4 <= TL)
+/* E: exp64 | vlen32 | val | crc */
+#define E_EXP ((int64_t)U64AT(P0 + FOFF))
+#define E_VL ((size_t)U32AT(P0 + FOFF + 8))
+#define E_OK (FOFF + 12 <= TL && E_VL <= REC_CAP && FOFF + 12 + E_VL + 4 <= TL)
+/* X: exp64 | crc */
+#define X_OK (FOFF + 12 <= TL)
+#define PLAUSIBLE(ms) ((ms) > 0 && (ms) <= 10413792000000LL)
+/* BPRE: what is assumed about the boundary b.  The framing and safety proofs take ANY b <= n.  The decode proofs view the file from the
+ * boundary (b == 0, LOG = the rest of the file): the stream shim depends on (p + pos, n - pos) only, so this is no restriction, and it removes
+ * one 64-bit addition from every array index (measured: E1 88 s -> 6 s). */
+#define STEP_SETUP(BPRE) \
+  size_t LOG_N = nondet_size_t(); __CPROVER_assume(LOG_N <= ((size_t)1 << 40)); \
+  uint8_t *LOG = (uint8_t *)malloc(LOG_N); __CPROVER_assume(LOG != NULL); \
+  iora_gfile gf; gf.exists = true; gf.p = LOG; gf.n = LOG_N; \
+  size_t b = nondet_size_t(); __CPROVER_assume(b <= LOG_N); __CPROVER_assume(BPRE);    /* loop invariant: read position inside the file */ \
+  iora_ifs log; log.open = true; log.fail = false; log.eof = false; log.p = LOG; log.n = LOG_N; log.pos = b; \
+  KVStore st; st._logPath = &gf; \
+  st._kv.has = nondet_bool(); st._kv.val.n = nondet_size_t(); st._kv.touched = false; st._kv.gtouched = false; \
+  st._expiry.has = nondet_bool(); st._expiry.val.expiry = nondet_i64(); st._expiry.val.timerId = nondet_u64(); st._expiry.touched = false; st._expiry.gtouched = false; \
+  bool kv_has0 = st._kv.has; iora_vec kv_val0 = st._kv.val; bool ex_has0 = st._expiry.has; ExpiryEntry ex_val0 = st._expiry.val; \
+  iora_tp now = nondet_i64(); GK = nondet_size_t(); \
+  G_alloc_cap = REC_CAP; G_step = IORA_STEP_NEXT; G_crc_called = false; G_skey_made = false; G_fromms_called = false; G_ifs_boundary = nondet_size_t(); iora_exc = EXC_NONE; IORA_TRUE = 1; \
+  KVStore_load_step(&st, &log, now); \
+  bool touched = st._kv.touched || st._expiry.touched; \
+  iora_skey LK = st._kv.touched ? st._kv.lastkey : st._expiry.lastkey; \
+  bool crc_match = G_crc_called && G_crc_ret == STORED; \
+  IORA_CANARY("h_step: returns"); \
+  if (G_step == IORA_STEP_BREAK) { IORA_CANARY("h_step: break"); } \
+  if (G_step == IORA_STEP_CONTINUE) { IORA_CANARY("h_step: continue"); } \
+  if (touched && OPB == OP_S && LK.is_g) { IORA_CANARY("h_step: S applied to the ghost key"); } \
+  if (touched && OPB == OP_E && LK.is_g && st._kv.has) { IORA_CANARY("h_step: E applied to the ghost key"); } \
+  if (touched && OPB == OP_X && LK.is_g) { IORA_CANARY("h_step: X applied to the ghost key"); } \
+  if (touched && OPB == OP_D) { IORA_CANARY("h_step: D applied"); }
+#define KV (st._kv)
+#define EX (st._expiry)
+#define UNCHANGED_KV (KV.has == kv_has0 && KV.val.p == kv_val0.p && KV.val.n == kv_val0.n)
+#define UNCHANGED_EX (EX.has == ex_has0 && EX.val.expiry == ex_val0.expiry && EX.val.timerId == ex_val0.timerId)
+
+
+/* proof "load_expiry": one iteration */
+void h_load_expiry(void)
+{
+  STEP_SETUP(b == 0)
+  bool gk = touched && LK.is_g;
+  __CPROVER_assert(IMPL(gk && OPB == OP_E && G_fromms_ret <= now, !KV.has || (EX.has && EX.val.expiry <= now)), "LE1 E record whose expiry has passed at load: the key is not observable afterwards (absent, or carrying the passed expiry)");
+  __CPROVER_assert(IMPL(COMPLETE && crc_match && OPB == OP_E && KEY_OK && E_OK && !PLAUSIBLE(E_EXP), !touched && UNCHANGED_KV && UNCHANGED_EX), "LE2 E record with an implausible expiry is dropped - never kept as an eternal key");
+  __CPROVER_assert(IMPL(gk && OPB == OP_S, KV.has && !EX.has), "LE3 a plain set clears an earlier expiry");
+  __CPROVER_assert(IMPL(gk && OPB == OP_X && E_EXP != IORA_LIMIT_int64_t_min && G_fromms_ret <= now, !KV.has || (EX.has && EX.val.expiry <= now)), "LE4 X record whose expiry has passed at load: the key is not observable afterwards");
+  __CPROVER_assert(IMPL(COMPLETE && crc_match && OPB == OP_X && KEY_OK && X_OK && E_EXP != IORA_LIMIT_int64_t_min && !PLAUSIBLE(E_EXP), UNCHANGED_KV && UNCHANGED_EX), "LE5 X record with an implausible expiry is ignored (does not make the key eternal)");
+  __CPROVER_assert(IMPL(EX.gtouched && EX.has, KV.has && G_fromms_called && EX.val.expiry == G_fromms_ret && PLAUSIBLE(G_fromms_arg)), "LE6 an expiry is stored only for a present key and is the plausible exp64 of the record");
+  __CPROVER_assert(IMPL(gk && OPB == OP_E && G_fromms_ret > now, KV.has && EX.has && EX.val.expiry == G_fromms_ret), "LE7 E record with a future expiry: key present with that expiry");
+}
+
+/* proof "load_ref2": TWO consecutive iterations on the ghost key against the clock-free reference replay ("the effect of the last operation
+ * on that key"): the log is a history of operations that were valid when they were acknowledged; whether an expiry has passed may be judged
+ * only for the FINAL state.  Clause REF2: [E k v t1][X k t2] with t1 <= now < t2 (TTL extended by expireAt before t1) must leave k present -
+ * and likewise [X k t1][X k sentinel] (expireAt then persist).  Fails on the unchanged tree: finding K5. */
+void h_load_ref2(void)
+{
+  STEP_SETUP(b == 0)
+  bool first_e = touched && LK.is_g && OPB == OP_E && G_fromms_called;          /* first record: set-with-TTL of the ghost key ... */
+  bool first_expired = G_fromms_ret <= now;                                       /* ... whose expiry has passed by the time of this load */
+  bool cont = G_step != IORA_STEP_BREAK && iora_exc == EXC_NONE;
+  if (first_e && first_expired && cont) {
+    IORA_CANARY("h_load_ref2: first record applied");
+    b = log.pos;                                                                  /* the record macros now speak about the second record */
+    st._kv.touched = false; st._expiry.touched = false; G_crc_called = false; G_skey_made = false; G_fromms_called = false; G_step = IORA_STEP_NEXT;
+    G_hint_ms = E_EXP; G_hint_ns = G_hint_ms * NS_PER_MS; G_hint_on = true;          /* t2 in ns, computed once on the specification side */
+    KVStore_load_step(&st, &log, now);
+    bool second_x = COMPLETE && G_crc_called && G_crc_ret == STORED && OPB == OP_X && KEY_OK && X_OK && G_skey_made && G_skey_last.is_g;   /* a well-formed X record for the same key */
+    if (second_x) { IORA_CANARY("h_load_ref2: second record is an X for the same key"); }
+    __CPROVER_assert(IMPL(second_x && E_EXP != IORA_LIMIT_int64_t_min && PLAUSIBLE(E_EXP) && E_EXP <= I64_MAX / NS_PER_MS && G_hint_ns > now, KV.has && EX.has && EX.val.expiry == G_hint_ns),
+                     "REF2a [E k v t1][X k t2], t1 <= now < t2: the key is present with expiry t2 (a TTL extended before it ran out survives a restart)");
+    __CPROVER_assert(IMPL(second_x && E_EXP == IORA_LIMIT_int64_t_min, KV.has && !EX.has),
+                     "REF2b [E k v t1][X k no-expiry], t1 <= now: the key is present and eternal (persist() before the TTL ran out survives a restart)");
+  }
+}
